@@ -221,9 +221,9 @@ INFORMATIONAL = {
 # tables".  Reviewed reference table: a symbol that *leaves* the referenced set is a violation, the table is not.
 BACKEND_OMITS = {
     'c99': {'M4_MODE_CXX_ONLY', 'M4_MODE_C_ONLY', 'M4_MODE_DO_STDINIT', 'M4_MODE_NO_DO_STDINIT', 'M4_MODE_NO_YYINPUT', 'M4_MODE_REENTRANT_TEXT_IS_ARRAY',
-            'M4_MODE_TABLESEXT', 'M4_MODE_YYCLASS', 'M4_YY_CLASS_NAME', 'M4_YY_NO_UNISTD_H', 'M4_YY_REENTRANT', 'M4_YY_TABLES_VERIFY', 'M4_MODE_YYWRAP'},
+            'M4_MODE_TABLESEXT', 'M4_MODE_YYCLASS', 'M4_YY_CLASS_NAME', 'M4_YY_NO_UNISTD_H', 'M4_YY_REENTRANT', 'M4_YY_TABLES_VERIFY', 'M4_MODE_YYWRAP', 'M4_MODE_LEX_COMPAT'},
     'go': {'M4_MODE_CXX_ONLY', 'M4_MODE_C_ONLY', 'M4_MODE_DO_STDINIT', 'M4_MODE_NO_DO_STDINIT', 'M4_MODE_NO_YYINPUT', 'M4_MODE_REENTRANT_TEXT_IS_ARRAY',
-           'M4_MODE_TABLESEXT', 'M4_MODE_YYCLASS', 'M4_YY_CLASS_NAME', 'M4_YY_NO_UNISTD_H', 'M4_YY_REENTRANT', 'M4_YY_TABLES_VERIFY', 'M4_MODE_YYWRAP',
+           'M4_MODE_TABLESEXT', 'M4_MODE_YYCLASS', 'M4_YY_CLASS_NAME', 'M4_YY_NO_UNISTD_H', 'M4_YY_REENTRANT', 'M4_YY_TABLES_VERIFY', 'M4_MODE_YYWRAP', 'M4_MODE_LEX_COMPAT',
            'M4_YY_NO_GET_LLOC', 'M4_YY_NO_GET_LVAL', 'M4_YY_NO_SET_LLOC', 'M4_YY_NO_SET_LVAL'},
 }
 
